@@ -16,6 +16,8 @@
 (*   inloq/t inline images that spell out optional entries with default / neutral values          *)
 (*           (ImageMask false, Interpolate, Decode; abbreviated and full keys; three entry orders) *)
 (*           and stencil masks (ImageMask true, one bit per sample, no colour space)              *)
+(*   inlk    inline images with an extra entry whose key (and name value) comes from the hostile  *)
+(*           name vocabulary (empty, white-space, delimiters, '#', bytes >= 128)                   *)
 EXTENDS SyntaxProducer, Content, TLC, Json
 
 CONSTANTS Universe, Emit
@@ -136,6 +138,19 @@ InlOT == {InlineOpt(CsAll[c], 8, 3, 2, 1, abbr, 10, FALSE, opt, oabbr, ord) :
          \cup {InlineOpt(CsAll[c], bpc, 2, 3, 3, c % 2 = 0, 32, FALSE, 6, c % 2 = 1, 2) : c \in 1..6, bpc \in {1, 2, 4}}
          \cup {MaskCase(wh[1], wh[2], 2, abbr, 32, FALSE, mv, ord) :
                   wh \in {<<1, 1>>, <<9, 2>>, <<16, 3>>}, abbr \in BOOLEAN, mv \in 1..4, ord \in 0..2}
+\* Entries outside Table 93 are ignored by a reader but are part of the image's dictionary: keys (and name values) from
+\* the hostile name vocabulary -- empty name, white-space, every delimiter, '#', a '#' followed by two hex digits, bytes
+\* >= 128 -- must be spelled with #xx escapes and survive decode -> encode -> decode.
+HostileNames == { <<>>, <<65, 32, 66>>, <<9>>, <<13>>, <<10>>, <<0>>, <<40>>, <<41>>, <<60>>, <<62>>, <<91>>, <<93>>, <<123>>, <<125>>,
+                  <<47>>, <<37>>, <<35>>, <<82, 101, 118, 35, 65, 49>>, <<128, 255>>, <<84, 97, 103, 40, 49, 41>> }
+InlineKey(cs, bpc, w, h, abbr, ws, free, key, nameval, ord) ==
+    LET c == InlineCase(cs, bpc, w, h, 1, abbr, ws, free)
+        img == c.ops[2].args[1]
+    IN [c EXCEPT !.ops[2].args[1] = OStream(img.v @@ (key :> (IF nameval THEN OName(key) ELSE I(3))), img.w), !.ord = ord]
+InlK == {InlineKey(CsG, 8, 1, 1, TRUE, 32, FALSE, key, FALSE, 0) : key \in HostileNames}
+        \cup {InlineKey(CsG, 8, 1, 1, TRUE, 32, FALSE, key, TRUE, 0) : key \in {<<>>, <<65, 32, 66>>, <<35>>, <<82, 101, 118, 35, 65, 49>>, <<40>>, <<128, 255>>}}
+InlFreeK == {InlineKey(CsAll[c], 8, 2, 1, abbr, ws, TRUE, key, nameval, ord) :
+               c \in {1, 4, 5}, abbr \in BOOLEAN, ws \in {32, 10}, key \in HostileNames, nameval \in BOOLEAN, ord \in 0..2}
 InlFreeO == {InlineOpt(CsAll[c], bpc, 3, 2, pat, abbr, ws, TRUE, opt, oabbr, ord) :
                c \in 1..6, bpc \in {1, 8}, pat \in {1, 2}, abbr \in BOOLEAN, ws \in {32, 10}, opt \in 1..6, oabbr \in BOOLEAN, ord \in 0..2}
             \cup {MaskCase(wh[1], wh[2], pat, abbr, ws, TRUE, mv, ord) :
@@ -160,7 +175,12 @@ Cases == IF Universe = "adj" THEN Adj
          ELSE IF Universe = "inlfree" THEN InlFree
          ELSE IF Universe = "inloq" THEN InlOQ
          ELSE IF Universe = "inlot" THEN InlOT
-         ELSE IF Universe = "mix" THEN Adj \cup AdjC \cup Adj2 \cup Seq2 \cup Seq3 \cup InlFree \cup InlFreeO
+         ELSE IF Universe = "inlk" THEN InlK
+         ELSE IF Universe = "mixops" THEN Adj \cup AdjC \cup Adj2 \cup Seq2 \cup Seq3
+         ELSE IF Universe = "mixinl" THEN InlFree \cup InlFreeO \cup InlFreeK
+         ELSE IF Universe = "cov" THEN Adj \cup AdjC \cup InlQ          \* small and balanced: every Producer action is likely in a few traces
+         ELSE IF Universe = "inlfreek" THEN InlFreeK
+         ELSE IF Universe = "mix" THEN Adj \cup AdjC \cup Adj2 \cup Seq2 \cup Seq3 \cup InlFree \cup InlFreeO \cup InlFreeK
          ELSE {}
 
 -----------------------------------------------------------------------------
@@ -180,7 +200,8 @@ InlineItems(o, ws, free, ord) ==
         keys == Permute(SetToSeq(DOMAIN d), ord)
         \* not free: key and value pre-spelled in one token (numbers, booleans, arrays of numbers), so that the
         \* exhaustive universes stay small; free: every spelling freedom of names, numbers and arrays
-        entry(key) == IF free THEN <<Val(OName(key)), Val(d[key])>>
+        plain(key) == \A i \in 1..Len(key) : IsRegular(key[i]) /\ key[i] # 35
+        entry(key) == IF free \/ ~plain(key) THEN <<Val(OName(key)), Val(d[key])>>       \* names that need #xx are spelled by XName
                       ELSE IF d[key].k = "int" THEN <<Tok(<<47>> \o key \o <<32>> \o DigitBytes(d[key].v))>>
                       ELSE IF d[key].k = "bool" THEN <<Tok(<<47>> \o key \o <<32>> \o BoolBytes(d[key].v))>>
                       ELSE IF IsIntArr(d[key]) THEN
@@ -231,4 +252,5 @@ EmitInv ==
                                                  opnames |-> [i \in 1..Len(src.ops) |-> src.ops[i].op],
                                                  nargs |-> [i \in 1..Len(src.ops) |-> Len(src.ops[i].args)],
                                                  inline |-> HasInline(src), idws |-> src.idws, sep |-> SepMode])>>)
+\* (whether an inline image has keys that need escaping is computed by the check from the strict reading)
 =============================================================================
